@@ -376,7 +376,10 @@ func (t *Thread) cleanupCloseStack(c Cont, h int, err error) error {
 		if Truth(v) {
 			closeErr, ok := Metacall(t, v, "__close", []Value{v, ErrorValue(err)}, NewTerminationWith(c, 0, false))
 			if !ok {
-				return errors.New("to be closed value missing a __close metamethod")
+				// The value has lost its __close metamethod since it was
+				// declared: that is an error, but the remaining values must
+				// still be closed.
+				closeErr = errors.New("to be closed value missing a __close metamethod")
 			}
 			if closeErr != nil {
 				err = closeErr
